@@ -62,7 +62,9 @@ var topLists = []*schema{
 // lone "}" directly after one, see braceWrap.)
 
 var litWords = []string{"Hello", "Total:", "Dear", "Report", "No.", "报告", "日期：", "Zürich", "x-1", "und", "#if", "@index", "/each", "else", "this",
-	"#", "@", "/", "\"q\"", "[x]", "100%", "a&b", "<b>", "é", "😀"}
+	"#", "@", "/", "\"q\"", "[x]", "100%", "a&b", "<b>", "é", "😀",
+	// text that means something to a regexp replacement template, a regexp or a format string: prices, shell-like text
+	"$15.00", "$1", "$USD", "${net}", "$$", "\\1", "%s", "a\\b", "$", "(.*)"}
 var litPunct = []string{" ", " ", " ", "  ", ", ", ". ", ": ", " - ", "\t", "; "}
 var litBrace = []string{"{ ", " }", "a{b", "c}d", "{ { ", " } }", "{{ x }}", "{}", "{ x }", " }."}
 var litNL = []string{"\n", "\n", "\n", "\n\n", " \n", "\n  ", "\n\t\n"}
@@ -83,10 +85,12 @@ type g struct {
 	condFlds  map[string]bool // item fields tested by a conditional of a loop body that carry a value of any of the documented condition types
 	usedLists map[string]bool
 	usedImgs  map[string]bool
-	n         int    // label counter
-	big       int    // big lists drawn so far (bounds the size of a case)
-	longLit   bool   // this case may hold long literals
-	seed      uint64 // see salt
+	n         int               // label counter
+	big       int               // big lists drawn so far (bounds the size of a case)
+	longLit   bool              // this case may hold long literals
+	forceVar  map[string]string // variables whose value is fixed by a fragment (frag.go)
+	forceFld  map[string]string // item fields likewise (most items carry the value)
+	seed      uint64            // see salt
 }
 
 func (x *g) lbl(s string) string { x.n++; return s + strconv.Itoa(x.n) }
@@ -277,6 +281,9 @@ func (x *g) body(s *schema, anc []*schema, depth int, allowIf bool) []Node {
 			out = append(out, x.lit(true))
 		}
 	}
+	if x.chance(9, "frag") { // a directive token spelled by a value and its neighbours (frag.go)
+		out = append(out, x.fragment(s)...)
+	}
 	if (x.hazard == "nestedctx" || x.hazard == "nestedabsent") && !s.scalar && len(s.subs) > 0 && depth < 3 && x.chance(70, "hznest") {
 		sub := s.subs[x.intn(0, len(s.subs)-1, "sub")]
 		out = append(out, Node{K: KEach, S: sub.name, A: x.body(sub, append(anc[:len(anc):len(anc)], s), depth+1, allowIf)})
@@ -324,6 +331,9 @@ func (x *g) top(min, max int, blocks []string, images bool) []Node {
 			out = append(out, Node{K: KLit, S: "\n"}, Node{K: KImage, S: im}, Node{K: KLit, S: "\n"})
 		default:
 			out = append(out, Node{K: KLit, S: x.pick(litNL, "nl")})
+		}
+		if x.chance(4, "frag") { // a directive token spelled by a value and its neighbours (frag.go)
+			out = append(out, x.fragment(nil)...)
 		}
 		// interleave the blocks of the base template
 		if bi < len(blocks) && x.chance(50, "blk") {
@@ -392,10 +402,11 @@ var valWords = []string{"Alice", "Bob", "ACME Ltd.", "東京", "München", "N/A"
 var valBraceSafe = []string{"a{b", "c}d", "x { y } z", "{ }", "{k}", "q}", "{ {x} }", "{x"}
 var valMultiline = []string{"line1\nline2", "\nlead", "trail\n", "a\n\nb", " \n "}
 
-// values with double braces that are not directives. Rules that keep any concatenation of pieces from forming a
-// directive the pieces do not contain: no value starts with '}', every "}}" inside a value is preceded (within the
-// value) by a character that cannot be part of a name, and "{{ x }}" has inner blanks. A value may end with "{{".
-var valBraceOpen = []string{"{{", "a{{", "a{{b", "<{{>", "{{ x }}", "{{ }}", "x-}}y", "( }} )", "-}}{{-", "{{ customer }}", "{ {customer} }", "{{customer }}", "{{ #if isVip }}"}
+// values with double braces that are not directives, and short pieces of directives. A value is text whatever it
+// spells together with its neighbours (see frag.go for the cases that spell a token on purpose).
+var valBraceOpen = []string{"{{", "a{{", "a{{b", "<{{>", "{{ x }}", "{{ }}", "x-}}y", "( }} )", "-}}{{-", "{{ customer }}", "{ {customer} }", "{{customer }}", "{{ #if isVip }}",
+	// short pieces of directives (1-4 bytes), closing braces first among them
+	"}}", "}", "x}}", "{{a", "{{#", "{{/", "e}}", "}}{{", "{", "{{@"}
 
 // directive-like strings: whole directive tokens inside a value. Whether the unchanged library re-interprets one
 // depends on where the value is inserted and on the kind of directive (rescan.go); everywhere else the value is
@@ -572,7 +583,10 @@ func (x *g) item(s *schema, depth int) Val {
 	}
 	m := map[string]Val{}
 	for _, f := range s.fields {
+		fv, forced := x.forceFld[f]
 		switch {
+		case forced && !x.condFlds[f] && x.chance(80, "ffpres"):
+			m[f] = Val{T: "s", S: fv}
 		case x.condFlds[f] && x.trueBools[f]:
 			m[f] = x.condVal(true)
 		case x.condFlds[f]:
@@ -640,6 +654,10 @@ func (x *g) list(s *schema, depth int) []Val {
 func (x *g) data() Data {
 	d := Data{Vars: map[string]Val{}, Conds: map[string]bool{}, Lists: map[string][]Val{}, Images: map[string]gen.Img{}}
 	for _, v := range varNames {
+		if s, ok := x.forceVar[v]; ok {
+			d.Vars[v] = Val{T: "s", S: s}
+			continue
+		}
 		if (x.usedVars[v] && x.chance(72, "vpres")) || (!x.usedVars[v] && x.chance(15, "vextra")) {
 			d.Vars[v] = x.scalar()
 		}
@@ -893,7 +911,7 @@ const hazardShare = 16
 
 func genCase(t *rapid.T) Case {
 	x := &g{t: t, usedVars: map[string]bool{}, usedConds: map[string]bool{}, trueConds: map[string]bool{}, trueBools: map[string]bool{}, condFlds: map[string]bool{},
-		usedLists: map[string]bool{}, usedImgs: map[string]bool{}}
+		usedLists: map[string]bool{}, usedImgs: map[string]bool{}, forceVar: map[string]string{}, forceFld: map[string]string{}}
 	x.seed = rapid.Uint64().Draw(t, "seed")
 	var hz []string
 	rescanOpen := openKF["KF-C16-rescan"] || openKF["KF-C16-rescan-fields"] || openKF["KF-C16-rescan-inherit"]
